@@ -27,11 +27,13 @@ package main
 // the comma out of their names.
 
 import (
+	"bytes"
 	"fmt"
 	"math/rand"
 	"sort"
 	"strings"
 
+	"github.com/fxamacker/cbor/v2"
 	"github.com/onflow/atree"
 
 	"verifharness/hx"
@@ -333,4 +335,69 @@ func (e *codecEnv) runCompactSeparatorProbe(rng *rand.Rand) {
 		}
 		e.st.Hit("probe:compact-type-id-separator:recovered")
 	}
+}
+
+// ---------------------------------------------------------------------------------------------
+// GetUintCBORSize (encode.go): the exported helper with which a caller's Storable reports the ByteSize() of an
+// unsigned integer (sweep s5, S3).  The library never calls it, so no container stream can see it; it is
+// compared here, settings-style, with the bytes the CBOR encoder really writes: EXHAUSTIVELY over 0..70000
+// (the width boundaries 23|24, 255|256, 65535|65536 with everything around them), around every power of two up
+// to 2^64-1 (2^32-1|2^32 among them), and on random 64-bit values; the values at and next to the five width
+// boundaries and the powers of two also go to the model (USZ lines: Codec.headLen, which
+// TransEq.GetUintCBORSize_eq_model ties to the translated Go function at every value).
+func (e *codecEnv) runUintSizeTable(rng *rand.Rand, emit bool) {
+	written := func(n uint64) uint32 {
+		var buf bytes.Buffer
+		enc := cbor.NewStreamEncoder(&buf)
+		if err := enc.EncodeUint64(n); err != nil {
+			return 0
+		}
+		if err := enc.Flush(); err != nil {
+			return 0
+		}
+		return uint32(buf.Len())
+	}
+	bad := 0
+	one := func(n uint64, line bool) {
+		got := atree.GetUintCBORSize(n)
+		if w := written(n); got != w && bad < 5 {
+			bad++
+			e.violation("C06", fmt.Sprintf("GetUintCBORSize(%d) = %d, the CBOR encoder writes %d bytes for that unsigned integer (a Storable that reports 1 + GetUintCBORSize(v) as the ByteSize of a tagged integer is off by %d)", n, got, w, int(w)-int(got)))
+		}
+		if line && emit {
+			e.w.L("USZ n=%d size=%d", n, got)
+		}
+		e.st.Ops++
+	}
+	near := map[uint64]bool{}
+	for k := uint(0); k <= 64; k++ {
+		var p uint64
+		if k < 64 {
+			p = uint64(1) << k
+		}
+		for d := uint64(0); d <= 4; d++ {
+			near[p-3+d] = true // 2^k-3 .. 2^k+1 (wrapping at 2^64: 2^64-3 .. 2^64-1, 0, 1)
+		}
+	}
+	for _, b := range []uint64{23, 24, 255, 256, 65535, 65536, 1<<32 - 1, 1 << 32, 1<<64 - 1} {
+		for d := uint64(0); d <= 4; d++ {
+			near[b-2+d] = true
+		}
+	}
+	for n := uint64(0); n <= 70000; n++ {
+		one(n, near[n])
+		delete(near, n)
+	}
+	rest := make([]uint64, 0, len(near))
+	for n := range near {
+		rest = append(rest, n)
+	}
+	sort.Slice(rest, func(i, j int) bool { return rest[i] < rest[j] })
+	for _, n := range rest {
+		one(n, true)
+	}
+	for i := 0; i < 2000; i++ {
+		one(rng.Uint64()>>uint(rng.Intn(64)), i < 50)
+	}
+	e.st.Hit("usz:all-width-boundaries")
 }
